@@ -45,7 +45,8 @@ def warm_start(
     pstart = f.variables["particle_count"][:-1].sum()
     pcount = f.variables["particle_count"][-1]
     pend = pstart + pcount
-    pid_max = np.max(f.variables["pid"][:]) + 1
+    pids = np.asarray(f.variables["pid"][:])
+    pid_max = int(pids.max()) + 1 if pids.size else 0  # (no particle in the file)
     # Particle variables are stored for every pid handed out so far, also for
     # particles that died without appearing in this file
     if "particle" in f.dimensions:
